@@ -37,6 +37,10 @@ pub fn table() -> Vec<(&'static str, String, Want)> {
         // --- method values (spec: Method values: "x.M ... is a function value that is callable with the same arguments as a method call of x.M"; "the expression x is evaluated and saved during the evaluation of the method value; the saved copy is then used as the receiver in any calls")
         ("method-value-is-a-function-value", with("type E struct {\n    k int32\n}\n\nfunc (env E) call(p0 int32) int32 {\n    return add(env, p0)\n}\n\nfunc add(env E, x int32) int32 {\n    return env.k + x\n}\n\nfunc twice(f func(int32) int32, x int32) int32 {\n    return f(f(x))\n}\n", "    var e E = E{\n        k: 5,\n    }\n    var f func(int32) int32 = e.call\n    p(i2s(twice(f, 1)))\n"), Want::Ok("11\n")),
         ("method-value-saves-a-copy-of-the-receiver", with("type E struct {\n    k int32\n}\n\nfunc (env E) call(p0 int32) int32 {\n    return env.k + p0\n}\n", "    var e E = E{\n        k: 5,\n    }\n    var f func(int32) int32 = e.call\n    e = E{\n        k: 100,\n    }\n    p(i2s(f(1)))\n    p(i2s(e.k))\n"), Want::Ok("6\n100\n")),
+        // spec, Go statements: "The expression must be a function or method call ... The function value and parameters to the call are evaluated as usual in the calling goroutine"
+        ("go-of-a-function-variable-holding-a-method-value", with("type C struct {\n    v int32\n}\n\ntype E struct {\n    r *C\n}\n\nfunc (env E) call() struct{} {\n    env.r.v = 7\n    p(\"g\")\n    return struct{}{}\n}\n", "    var c *C = &C{\n        v: 0,\n    }\n    var e E = E{\n        r: c,\n    }\n    var f func() struct{} = e.call\n    go f()\n    for {\n        if c.v == 7 {\n            break\n        }\n    }\n    p(i2s(c.v))\n"), Want::Ok("g\n7\n")),
+        ("go-of-a-method-call", with("type C struct {\n    v int32\n}\n\ntype E struct {\n    r *C\n}\n\nfunc (env E) call() struct{} {\n    env.r.v = 7\n    return struct{}{}\n}\n", "    var c *C = &C{\n        v: 0,\n    }\n    var e E = E{\n        r: c,\n    }\n    go e.call()\n    for {\n        if c.v == 7 {\n            break\n        }\n    }\n    p(i2s(c.v))\n"), Want::Ok("7\n")),
+        ("go-of-a-conversion", m("    var x int32 = 1\n    go int64(x)\n    p(\"a\")\n"), Want::Reject("go-stmt")),
         ("method-value-at-the-wrong-function-type", with("type E struct {\n    k int32\n}\n\nfunc (env E) call(p0 int32) int32 {\n    return env.k + p0\n}\n", "    var e E = E{\n        k: 5,\n    }\n    var f func(string) int32 = e.call\n    _ = f\n    p(\"a\")\n"), Want::Reject("assign")),
         ("method-with-a-result-called-directly", with("type E struct {\n    k int32\n}\n\nfunc (env E) call(p0 int32) int32 {\n    return env.k + p0\n}\n", "    var e E = E{\n        k: 5,\n    }\n    p(i2s(e.call(2)))\n"), Want::Ok("7\n")),
         // --- assignability (spec: Assignability)
